@@ -3754,6 +3754,8 @@ impl GraphEngine {
             "_updated_at",
             TensorValue::Scalar(ScalarValue::Int(current_timestamp_millis().cast_signed())),
         );
+        #[cfg(feature = "neumann_verif")]
+        tensor_store::verif_hooks::yield_point("graph.add_label.rmw");
         self.store.put(key, tensor)?;
 
         // Update index
@@ -3797,6 +3799,8 @@ impl GraphEngine {
             "_updated_at",
             TensorValue::Scalar(ScalarValue::Int(current_timestamp_millis().cast_signed())),
         );
+        #[cfg(feature = "neumann_verif")]
+        tensor_store::verif_hooks::yield_point("graph.remove_label.rmw");
         self.store.put(key, tensor)?;
 
         // Update index
@@ -8307,6 +8311,8 @@ impl GraphEngine {
                 })?;
         }
 
+        #[cfg(feature = "neumann_verif")]
+        tensor_store::verif_hooks::yield_point("graph.batch_create_edges.validated");
         // Ensure edge type index exists
         self.ensure_edge_type_index();
 
@@ -8332,6 +8338,8 @@ impl GraphEngine {
                 &edge.properties,
                 edge.directed,
             )?;
+            #[cfg(feature = "neumann_verif")]
+            tensor_store::verif_hooks::yield_point("graph.batch_create_edges.edge_done");
         }
 
         Ok(BatchResult {
@@ -8416,6 +8424,8 @@ impl GraphEngine {
         let mut failed = Vec::new();
 
         for (idx, id) in ids.into_iter().enumerate() {
+            #[cfg(feature = "neumann_verif")]
+            tensor_store::verif_hooks::yield_point("graph.batch_delete_nodes.next");
             match self.delete_node(id) {
                 Ok(()) => deleted_ids.push(id),
                 Err(e) => {
@@ -8445,6 +8455,8 @@ impl GraphEngine {
         let mut failed = Vec::new();
 
         for (idx, id) in ids.into_iter().enumerate() {
+            #[cfg(feature = "neumann_verif")]
+            tensor_store::verif_hooks::yield_point("graph.batch_delete_edges.next");
             match self.delete_edge(id) {
                 Ok(()) => deleted_ids.push(id),
                 Err(e) => {
@@ -8483,6 +8495,8 @@ impl GraphEngine {
                 })?;
         }
 
+        #[cfg(feature = "neumann_verif")]
+        tensor_store::verif_hooks::yield_point("graph.batch_update_nodes.validated");
         // Apply updates
         let mut update_count = 0;
         for (id, labels, properties) in updates {
